@@ -7,6 +7,7 @@ import (
 	"net/http/httptest"
 	"sort"
 	"strings"
+	"sync"
 
 	"github.com/vektah/gqlparser/v2/ast"
 	"github.com/vektah/gqlparser/v2/gqlerror"
@@ -228,5 +229,110 @@ func poolHistories(c *gen.Ctx, prop string, r *gen.Rand, meta *gen.Meta) error {
 		meta.Distribution = map[string]any{}
 	}
 	meta.Distribution["pool_histories"] = map[string]int{"histories": n, "requests_handed_to_the_executor": seen, "requests_refused_as_undecodable": refused}
+	return nil
+}
+
+// flightSnoop records what the executor is handed per request (several requests are in flight at once; the request is
+// recognised by a marker in its context).
+type flightSnoop struct {
+	mu   *sync.Mutex
+	seen map[int]*paramView
+}
+
+func (flightSnoop) ExtensionName() string                          { return "flightsnoop" }
+func (flightSnoop) Validate(schema graphql.ExecutableSchema) error { return nil }
+func (s flightSnoop) MutateOperationParameters(ctx context.Context, p *graphql.RawParams) *gqlerror.Error {
+	str := func(m map[string]any) map[string]string {
+		out := map[string]string{}
+		for k, v := range m {
+			out[k] = fmt.Sprint(v)
+		}
+		return out
+	}
+	if k, ok := ctx.Value(ctxKey("flight")).(int); ok {
+		v := &paramView{Query: p.Query, OpName: p.OperationName, Vars: str(p.Variables), Exts: str(p.Extensions)}
+		s.mu.Lock()
+		s.seen[k] = v
+		s.mu.Unlock()
+	}
+	return nil
+}
+
+// inFlightBatches: batches of generated bodies sent to ONE server at once (the POST transport's pooled parameter
+// objects are handed from request to request while others are still using theirs): what each request's executor is
+// handed must be what the model of the pool with requests in flight gives (Model.PoolConc) and what a fresh server
+// gives the body alone.
+func inFlightBatches(c *gen.Ctx, prop string, r *gen.Rand, meta *gen.Meta) error {
+	cf := &gen.CaseFile{Dir: c.OutDir, Prop: prop, Kind: "flight", Requires: []string{"Base.Prelude", "Model.ParamPool", "Model.PoolConc", "Corr.Corr_Pool"}, Type: "pool_case",
+		Checks: []gen.Check{{Label: "corr", Fn: "flight_corr"}, {Label: strings.ToLower(prop), Fn: "pool_mon"}, {Label: "monmodel", Fn: "flight_monmodel"}}, Shard: 300}
+	n := 150
+	if c.Thorough() {
+		n = 3000
+	}
+	var descr []any
+	for i := 0; i < n; i++ {
+		sn := flightSnoop{mu: &sync.Mutex{}, seen: map[int]*paramView{}}
+		es := &graphql.ExecutableSchemaMock{
+			SchemaFunc: func() *ast.Schema { return schema },
+			ComplexityFunc: func(ctx context.Context, typeName, fieldName string, childComplexity int, args map[string]any) (int, bool) {
+				return 0, false
+			},
+			ExecFunc: func(ctx context.Context) graphql.ResponseHandler {
+				return graphql.OneShot(&graphql.Response{Data: []byte(`{"a":1}`)})
+			},
+		}
+		srv := handler.New(es)
+		srv.AddTransport(transport.POST{})
+		srv.Use(sn)
+		// warm the pool, so that objects are handed on rather than all freshly allocated
+		for w := 0; w < 2; w++ {
+			req := httptest.NewRequest("POST", "/query", strings.NewReader(`{"query":"{ a }","operationName":"W","variables":{"w":"1"},"extensions":{"w":"2"}}`))
+			req.Header.Set("Content-Type", "application/json")
+			srv.ServeHTTP(httptest.NewRecorder(), req)
+		}
+		k := 4 + r.Intn(7)
+		bodies := make([]string, k)
+		var hist, alone []string
+		d := poolDescr{}
+		for j := 0; j < k; j++ {
+			ms := genPoolBody(r)
+			bodies[j] = renderBody(ms)
+			var terms []string
+			for _, m := range ms {
+				terms = append(terms, m.coq())
+			}
+			hist = append(hist, fmt.Sprintf("(\"h\"%%string, %s)", gen.List(terms)))
+			var last2 *paramView
+			v2 := poolSend(poolServer(&last2), &last2, bodies[j])
+			alone = append(alone, v2.coq())
+			d.Bodies, d.Alone = append(d.Bodies, bodies[j]), append(d.Alone, v2)
+		}
+		start := make(chan struct{})
+		var wg sync.WaitGroup
+		for j := 0; j < k; j++ {
+			wg.Add(1)
+			go func(j int) {
+				defer wg.Done()
+				req := httptest.NewRequest("POST", "/query", strings.NewReader(bodies[j]))
+				req.Header.Set("Content-Type", "application/json")
+				req = req.WithContext(context.WithValue(req.Context(), ctxKey("flight"), j))
+				<-start
+				srv.ServeHTTP(httptest.NewRecorder(), req)
+			}(j)
+		}
+		close(start)
+		wg.Wait()
+		var obs []string
+		for j := 0; j < k; j++ {
+			obs = append(obs, sn.seen[j].coq())
+			d.Seen = append(d.Seen, sn.seen[j])
+		}
+		cf.Add(fmt.Sprintf("{| pc_hist := %s; pc_obs := %s; pc_alone := %s |}", gen.List(hist), gen.List(obs), gen.List(alone)))
+		descr = append(descr, d)
+	}
+	if err := meta.AddCaseFile(cf, descr); err != nil {
+		return err
+	}
+	meta.Notes = append(meta.Notes, fmt.Sprintf("%d batches of 4..10 generated POST bodies sent at once to one server whose parameter pool was warmed with a request carrying every member: what each executor is handed is compared with the pool model with requests in flight (Model.PoolConc) and with a fresh server", n))
 	return nil
 }
